@@ -6,12 +6,17 @@ package l4wireguard
 
 // The matcher never panics and allocates a fixed 149-byte buffer plus the parsed message (C04); it
 // leaves the connection buffer and the network alone (C06).
+//@ ghostfn wgtype(cx *layer4.Connection) uint32 = uint32(cx.buf[cx.offset]) | uint32(cx.buf[cx.offset+1])<<8 | uint32(cx.buf[cx.offset+2])<<16 | uint32(cx.buf[cx.offset+3])<<24
 //@ func (m *MatchWireGuard) Match(cx *layer4.Connection) (matched bool, err error)
 //@ requires wfm(cx)
 //@ safety C04
 //@ implements[C06] (m github.com/mholt/caddy-l4/layer4.ConnMatcher) Match
 //@ ensures[C06] err == nil || err == layer4.ErrConsumedAllPrefetchedBytes
 //@ ensures[C06] err != nil ==> !matched
+// wire definition (C14): a datagram of exactly 148 bytes whose little-endian type word is 1 (handshake
+// initiation) or of exactly 32 bytes whose type word is 4 (keepalive transport message), where the
+// three reserved bytes of the type word equal the configured `zero` value.
+//@ ensures[C14] err == nil ==> matched == ((old(avail(cx)) == 148 && old(wgtype(cx)) == (m.Zero&4294967040)|1) || (old(avail(cx)) == 32 && old(wgtype(cx)) == (m.Zero&4294967040)|4))
 
 //@ func (msg *MessageInitiation) FromBytes(src []byte) (err error)
 //@ inline
